@@ -14,7 +14,7 @@ const ChildEnv = "CEDARVERIF_C17_CHILD"
 
 // Job describes what one child process runs.
 type Job struct {
-	Phases   []string `json:"phases"` // "pairs" "stress" "hist" "gated" "handshake" "handshake_seq" "fresh" "manager" "manager_seq" "duplex" "ccb"
+	Phases   []string `json:"phases"` // "alloc" "pairs" "stress" "hist" "gated" "handshake" "handshake_seq" "fresh" "manager" "manager_seq" "duplex" "ccb"
 	Seed     int64    `json:"seed"`
 	Procs    int      `json:"procs"`
 	Yield    bool     `json:"yield"`
@@ -26,6 +26,9 @@ type Job struct {
 	Clients  int      `json:"clients"`
 	Iters    int      `json:"iters"`
 	Conns    int      `json:"conns"`
+	AllocG   int      `json:"alloc_g"` // "alloc": goroutines
+	AllocN   int      `json:"alloc_n"` // ... GetNextSessionCounter calls per goroutine
+	AllocM   int      `json:"alloc_m"` // ... minted+stored sessions per goroutine
 	Out      string   `json:"out"`
 }
 
@@ -38,9 +41,10 @@ type ChildResult struct {
 	Episodes    []Episode           `json:"episodes"`
 	Net         map[string]NetStats `json:"net"`
 	WallMs      int64               `json:"wall_ms"`
-	GatedRuns   int                 `json:"gated_runs"`    // gated schedules run
-	GatedHeld   int                 `json:"gated_held"`    // ... in which operation A reached the expiry-check gate
-	GatedInside int                 `json:"gated_inside"`  // ... in which operation B returned while A was held there
+	Alloc       []AllocStats        `json:"alloc"`
+	GatedRuns   int                 `json:"gated_runs"`   // gated schedules run
+	GatedHeld   int                 `json:"gated_held"`   // ... in which operation A reached the expiry-check gate
+	GatedInside int                 `json:"gated_inside"` // ... in which operation B returned while A was held there
 }
 
 // ChildMain runs the job named by the environment and exits.
@@ -68,6 +72,8 @@ func ChildMain(jobPath string) {
 				res.PairOps[p.A+"|"+p.B] += n
 				res.CacheOps += n
 			}
+		case "alloc":
+			res.Alloc = append(res.Alloc, AllocHammer(job.AllocG, job.AllocN, job.AllocM))
 		case "stress":
 			res.CacheOps += Stress(job.Seed, job.StressG, time.Duration(job.StressMs)*time.Millisecond, job.Yield)
 		case "hist":
